@@ -281,6 +281,7 @@ func cmdRun(args []string) int {
 	}
 
 	exit := 0
+	confirmedViolation := false // a violation reproduced against the real code wins over inconclusive parts
 	var evid []harnessEvidence
 	var samples []any
 	funcs := map[string]bool{}
@@ -439,6 +440,7 @@ func cmdRun(args []string) int {
 				fmt.Printf("VIOLATION property=%s replay=%s\n", *prop, rp)
 				fmt.Printf("  harness=%s label=%s kind=%s %s model=%s (engine-only harness: faults are injected, replay is the engine's concrete re-execution)\n", rr.name, v.Label, v.Kind, v.Msg, modelString(v.Model))
 				exit = max(exit, 1)
+				confirmedViolation = true
 			}
 		}
 		for ci, ref := range refs {
@@ -489,6 +491,7 @@ func cmdRun(args []string) int {
 				fmt.Printf("VIOLATION property=%s replay=%s\n", *prop, rp)
 				fmt.Printf("  harness=%s label=%s kind=%s %s model=%s\n", rr.name, v.Label, v.Kind, v.Msg, modelString(v.Model))
 				exit = max(exit, 1)
+				confirmedViolation = true
 				if len(samples) < 12 {
 					samples = append(samples, map[string]any{"harness": rr.name, "violation": v.Label, "model": v.Model})
 				}
@@ -626,6 +629,9 @@ func cmdRun(args []string) int {
 			fmt.Fprintln(os.Stderr, err)
 			return 2
 		}
+	}
+	if confirmedViolation {
+		exit = 1
 	}
 	fmt.Printf("property %s tier %s: paths=%d completed=%d queries=%d replayed=%d new-violations=%d known=%d wall=%.1fs exit=%d\n",
 		*prop, *tier, totalPaths, totalCompleted, totalQueries, totalReplayed, totalViol, len(knownPrinted), wall, exit)
